@@ -352,6 +352,81 @@ def check_d2_d3(chk, m):
     chk.expect("D2", "successful decoder paths", len(succ), 4)
 
 
+def check_table_index(chk, m, prog):
+    """D4.table-index: in the helpers that run on a decoded (untrusted) structure, a load from a global array at a variable index
+    is inside the array on every path: the path's conditions bound the index below by 0 and above by the element count.  A signed
+    index (an enum with a negative member) tested on one side only reads before the table."""
+    n = 0
+    seen = set()
+    for name in HELPERS:
+        for f in prog.closure(m.fn(name)):
+            if f.module is not m or f.name in seen:
+                continue
+            seen.add(f.name)
+            for p in paths.enumerate_paths(f, m):
+                for e in p.events:
+                    if e.kind != "load" or not isinstance(e.ptr, tuple) or e.ptr[0] != "p" or e.ptr[1][0] != "g" or not e.ptr[3]:
+                        continue
+                    g = m.globals.get(e.ptr[1][1])
+                    if g is None or len(e.ptr[3]) != 1 or not g.get("size"):
+                        chk.unknown("D4.table-index", "%s %s" % (f.name, e.inst.loc), "table load not of the form global[index]", e.inst.loc)
+                        continue
+                    idx, stride = e.ptr[3][0]
+                    count = (g["size"] - e.ptr[2]) // stride
+                    core = paths.strip_casts(idx)
+                    lo, hi, unsigned_hi = None, None, None
+                    for c, taken, inst in p.conds:
+                        if inst is not None and inst.op == "switch":
+                            continue
+                        cc = paths.strip_casts(c) if c[0] == "cast" else c
+                        if cc[0] != "icmp":
+                            continue
+                        a, b, pred = cc[2], cc[3], cc[1]
+                        if b[0] != "c" and a[0] == "c":
+                            a, b = b, a
+                            pred = {"slt": "sgt", "sgt": "slt", "sle": "sge", "sge": "sle", "ult": "ugt", "ugt": "ult", "ule": "uge",
+                                    "uge": "ule"}.get(pred, pred)
+                        if paths.strip_casts(a) != core or b[0] != "c":
+                            continue
+                        if not taken:
+                            pred = {"slt": "sge", "sge": "slt", "sgt": "sle", "sle": "sgt", "ult": "uge", "uge": "ult", "ugt": "ule",
+                                    "ule": "ugt", "eq": "ne", "ne": "eq"}[pred]
+                        bits = b[1]
+                        sv = b[2] - (1 << bits) if b[2] >> (bits - 1) else b[2]
+                        if pred == "sle":
+                            hi = sv if hi is None else min(hi, sv)
+                        elif pred == "slt":
+                            hi = sv - 1 if hi is None else min(hi, sv - 1)
+                        elif pred == "sge":
+                            lo = sv if lo is None else max(lo, sv)
+                        elif pred == "sgt":
+                            lo = sv + 1 if lo is None else max(lo, sv + 1)
+                        elif pred == "ule":
+                            unsigned_hi = b[2] if unsigned_hi is None else min(unsigned_hi, b[2])
+                        elif pred == "ult":
+                            unsigned_hi = b[2] - 1 if unsigned_hi is None else min(unsigned_hi, b[2] - 1)
+                        elif pred == "eq":
+                            lo = hi = sv
+                    if unsigned_hi is not None:         # an unsigned bound holds for the value read as unsigned: both sides at once
+                        lo = 0 if lo is None else max(lo, 0)
+                        hi = unsigned_hi if hi is None else min(hi, unsigned_hi)
+                    n += 1
+                    inst_ = "%s %s[%s] %s" % (f.name, g["name"], fmt(idx)[:40], "->".join(b_.lstrip("%") for b_ in p.blocks)[-60:])
+                    if lo is None and hi is None:
+                        chk.unknown("D4.table-index", inst_, "no comparison of the index with a constant on this path", e.inst.loc)
+                        continue
+                    ok = lo is not None and hi is not None and lo >= 0 and hi <= count - 1
+                    chk.ob("D4.table-index", inst_, ok,
+                           "index into %s (%d elements) is within [%s, %s] on this path" % (g["name"], count, lo, hi) if ok else
+                           "index into %s (%d elements) is only known to be in [%s, %s] on this path: %s" % (
+                               g["name"], count, "-inf" if lo is None else lo, "+inf" if hi is None else hi,
+                               "a negative value (RF_WAVHEADER_UNKNOWN is -1, and a decoded header of an unrecognised format yields it) "
+                               "reads before the table" if lo is None or lo < 0 else "a value beyond the last element reads past the table"),
+                           e.inst.loc, f.name)
+    # (no instance on the unchanged tree - the helpers use switches; positive examples in selftest/mutants/C14.json)
+    chk.expect("D4.table-index", "variable-index loads from global tables in the helpers", n, 0)
+
+
 def check_d4(chk, m, prog):
     n_div = 0
     for name in HELPERS:
@@ -431,6 +506,7 @@ def run(chk):
     check_d1(chk, m)
     check_d2_d3(chk, m)
     check_d4(chk, m, prog)
+    check_table_index(chk, m, prog)
     # the cursor the decoder relies on: sticky, guarded (truncation never yields success)
     chk.rule_prefix = "pack."
     chk.rule_filter = lambda r: r.startswith(("P1", "P2", "P3", "P4.zero-on-overflow", "P6"))
